@@ -859,6 +859,17 @@ struct static_array<T, ::boost::multi::dimensionality_type{0}, Alloc>  // NOLINT
 			array_alloc::destroy_n(this->data_elements(), this->num_elements());
 		}
 	}
+	// runs the element construction of a constructor body; if it throws, the block obtained in the mem-initializer is returned
+	template<class Construct>
+	void construct_or_deallocate_(Construct&& construct) {
+		try {
+			std::forward<Construct>(construct)();
+		} catch(...) {
+			deallocate();
+			throw;
+		}
+	}
+
 	// auto destroy() {
 	//  return adl_alloc_destroy_n(this->alloc(), this->data_elements(), this->num_elements());
 	//  // array_alloc::destroy_n(this->data_elements(), this->num_elements());
@@ -891,7 +902,7 @@ struct static_array<T, ::boost::multi::dimensionality_type{0}, Alloc>  // NOLINT
 		  ),
 		  extensions
 	  ) {
-		uninitialized_fill(elem);
+		construct_or_deallocate_([&] { uninitialized_fill(elem); });
 	}
 
 	static_array(typename static_array::element_type const& elem, allocator_type const& alloc)
@@ -901,7 +912,7 @@ struct static_array<T, ::boost::multi::dimensionality_type{0}, Alloc>  // NOLINT
 	explicit static_array(multi::const_subarray<OtherT, 0, OtherEPtr, OtherLayout> const& other, allocator_type const& alloc)
 	: array_alloc{alloc}, ref(static_array::allocate(other.num_elements()), extensions(other)) {
 		assert(other.num_elements() <= 1);
-		if(other.num_elements()) {
+		if(other.num_elements()) { construct_or_deallocate_([&] {
 			#if defined(__clang__) && defined(__CUDACC__)
 			if constexpr(! std::is_trivially_default_constructible_v<typename static_array::element_type> && ! multi::force_element_trivial_default_construction<typename static_array::element_type> ) {
 				adl_alloc_uninitialized_default_construct_n(static_array::alloc(), this->data_elements(), this->num_elements());
@@ -910,12 +921,12 @@ struct static_array<T, ::boost::multi::dimensionality_type{0}, Alloc>  // NOLINT
 			#else
 			adl_alloc_uninitialized_copy(static_array::alloc(), other.base(), other.base() + other.num_elements(), this->base());
 			#endif
-		}
+		}); }
 	}
 
 	template<class TT, class... Args>
 	explicit static_array(multi::static_array<TT, 0, Args...> const& other, allocator_type const& alloc)  // TODO(correaa) : call other constructor (above)
-	: array_alloc{alloc}, ref(static_array::allocate(other.num_elements()), extensions(other)) {
+	: array_alloc{alloc}, ref(static_array::allocate(other.num_elements()), extensions(other)) { construct_or_deallocate_([&] {
 		#if defined(__clang__) && defined(__CUDACC__)
 		if constexpr(! std::is_trivially_default_constructible_v<typename static_array::element_type> && ! multi::force_element_trivial_default_construction<typename static_array::element_type> ) {
 			adl_alloc_uninitialized_default_construct_n(static_array::alloc(), this->data_elements(), this->num_elements());
@@ -924,7 +935,7 @@ struct static_array<T, ::boost::multi::dimensionality_type{0}, Alloc>  // NOLINT
 		#else
 		adl_alloc_uninitialized_copy_n(static_array::alloc(), other.data_elements(), other.num_elements(), this->data_elements());
 		#endif
-	}
+	}); }
 
 	template<class TT, class... Args>
 	explicit static_array(multi::static_array<TT, 0, Args...> const& other)
@@ -949,7 +960,7 @@ struct static_array<T, ::boost::multi::dimensionality_type{0}, Alloc>  // NOLINT
 		typename static_array::element_type const&         elem
 	)  // 2
 	: array_alloc{}, ref(static_array::allocate(static_cast<typename multi::allocator_traits<allocator_type>::size_type>(typename static_array::layout_t{extensions}.num_elements()), nullptr), extensions) {
-		uninitialized_fill(elem);
+		construct_or_deallocate_([&] { uninitialized_fill(elem); });
 	}
 
 	static_array() : static_array(multi::iextensions<0>{}) {}  // TODO(correaa) a noexcept will force a partially formed state for zero dimensional arrays
@@ -962,7 +973,7 @@ struct static_array<T, ::boost::multi::dimensionality_type{0}, Alloc>  // NOLINT
 	         class                                                                                                                                 = decltype(adl_copy_n(&std::declval<Singleton>(), 1, typename static_array::element_ptr{}))>
 	// cppcheck-suppress noExplicitConstructor ; to allow terse syntax  // NOLINTNEXTLINE(runtime/explicit)
 	/*implict*/ static_array(Singleton const& single)  // NOLINT(google-explicit-constructor,hicpp-explicit-conversions) this is used by the 
-	: ref(static_array::allocate(1), typename static_array::extensions_type{}) {
+	: ref(static_array::allocate(1), typename static_array::extensions_type{}) { construct_or_deallocate_([&] {
 		#if defined(__clang__) && defined(__CUDACC__)
 		if constexpr(! std::is_trivially_default_constructible_v<typename static_array::element_type> && ! multi::force_element_trivial_default_construction<typename static_array::element_type> ) {
 			adl_alloc_uninitialized_default_construct_n(static_array::alloc(), this->data_elements(), this->num_elements());
@@ -971,7 +982,7 @@ struct static_array<T, ::boost::multi::dimensionality_type{0}, Alloc>  // NOLINT
 		#else
 		adl_alloc_uninitialized_copy_n(static_array::alloc(), &single, 1, this->data_elements());
 		#endif
-	}
+	}); }
 
 	template<class ValueType,
 		typename = std::enable_if_t<std::is_same_v<ValueType, value_type>> >  // NOLINT(modernize-use-constraints) TODO(correaa) for C++20
@@ -990,7 +1001,7 @@ struct static_array<T, ::boost::multi::dimensionality_type{0}, Alloc>  // NOLINT
 
 	explicit static_array(typename static_array::extensions_type const& extensions, allocator_type const& alloc)  // 3
 	: array_alloc{alloc}, ref(static_array::allocate(typename static_array::layout_t{extensions}.num_elements()), extensions) {
-		uninitialized_value_construct();
+		construct_or_deallocate_([&] { uninitialized_value_construct(); });
 	}
 	explicit static_array(typename static_array::extensions_type const& extensions)  // 3
 	: static_array(extensions, allocator_type{}) {
@@ -1003,18 +1014,20 @@ struct static_array<T, ::boost::multi::dimensionality_type{0}, Alloc>  // NOLINT
 
 	static_array(static_array const& other)  // 5b
 	: array_alloc{multi::allocator_traits<allocator_type>::select_on_container_copy_construction(other.alloc())}, ref{static_array::allocate(other.num_elements(), other.data_elements()), {}} {
-		uninitialized_copy(other.data_elements());
+		construct_or_deallocate_([&] { uninitialized_copy(other.data_elements()); });
 	}
 
 	static_array(static_array&& other) noexcept(false)  // TODO(correaa) detect if allocation is no except
 	: array_alloc{other.get_allocator()}
 	, ref(static_array::allocate(static_cast<typename multi::allocator_traits<allocator_type>::size_type>(other.num_elements()), other.data_elements()), other.extensions()) {
-		adl_alloc_uninitialized_move_n(
-			this->alloc(),
-			other.data_elements(),
-			other.num_elements(),
-			this->data_elements()
-		);
+		construct_or_deallocate_([&] {
+			adl_alloc_uninitialized_move_n(
+				this->alloc(),
+				other.data_elements(),
+				other.num_elements(),
+				this->data_elements()
+			);
+		});
 	}
 
  protected:
